@@ -311,6 +311,9 @@ func (pmt *Payment) calculate() error {
 	pmt.Tax = tt
 	if total != nil {
 		pmt.Total = *total
+	} else {
+		// no lines, nothing to add up: do not keep a previous total
+		pmt.Total = num.AmountZero
 	}
 	return nil
 }
